@@ -159,6 +159,109 @@ def _check_path(dialect, toks, r, earley, st, on_reject=None):
             on_reject(toks, r, st)
 
 
+PREDECESSORS = {
+    'none': None,
+    'accept': lambda: _call_parse("SELECT a, b FROM t1 WHERE a = 1", 'mindsdb'),
+    'lexer-error': lambda: _call_parse("SELECT # FROM t", 'mindsdb'),
+    'parser-error': lambda: _call_parse("SELECT FROM WHERE", 'mindsdb'),
+    'parser-error-mysql': lambda: _call_parse("SELECT a FROM", 'mysql'),
+    'planner-error': lambda: _call_plan("SELECT * FROM nodb.t1 JOIN nodb2.t2"),
+    'plan-and-render': lambda: _call_plan("SELECT t1.a FROM int1.t1 JOIN int2.t2 ON t1.id = t2.id WHERE t1.a > 1", render=True),
+}
+
+
+def _call_parse(sql, dialect):
+    from mindsdb_sql import parse_sql
+    try:
+        parse_sql(sql, dialect)
+    except Exception:  # noqa
+        pass
+
+
+def _call_plan(sql, render=False):
+    from mindsdb_sql import parse_sql
+    from mindsdb_sql.planner import plan_query
+    try:
+        q = parse_sql(sql, 'mindsdb')
+        plan_query(q, integrations=['int1', 'int2'], predictor_metadata=[{'name': 'pred', 'integration_name': 'mindsdb'}])
+        if render:
+            from mindsdb_sql.render.sqlalchemy_render import SqlalchemyRender
+            SqlalchemyRender('mysql').get_string(q)
+    except Exception:  # noqa
+        pass
+
+
+def run_tail_real(dialect, L, tokens):
+    """the real parse_sql INCLUDING the real get_lexer_parser (so a cached lexer/parser would be used); only the lexer
+    class's tokenize is replaced to deliver the symbolic token stream"""
+    import mindsdb_sql
+    from mindsdb_sql.exceptions import ParsingException
+    orig = L.tokenize
+    L.tokenize = lambda self, text, *a, **k: iter(tokens)
+    r = PathResult()
+    r.exc = r.ast = r.message = None
+    try:
+        r.ast = mindsdb_sql.parse_sql('<symbolic token stream>', dialect)
+        r.outcome = 'accept' if r.ast is not None else 'none-returned'
+    except ParsingException as e:
+        r.outcome = 'reject'
+        r.message = str(e)
+    except Exception as e:  # noqa
+        r.outcome = 'internal'
+        r.exc = e
+    finally:
+        L.tokenize = orig
+    return r
+
+
+def worker_history(args):
+    """space (i) with a predecessor call executed before every path (on the real, un-stubbed library); returns a digest of
+    every path's observable outcome in exploration order"""
+    dialect, K, firsts, pred = args
+    import hashlib
+    sys.setrecursionlimit(10000)
+    from engines.symtok import Explorer, SymToken, representatives
+    import mindsdb_sql
+    L, P = dialect_classes(dialect)
+    rep, _ = representatives(L)
+    alpha = alphabet_of(P)
+    ex = Explorer(P, alpha, rep, use_z3=True)
+    real_glp = mindsdb_sql.get_lexer_parser
+    h = hashlib.sha1()
+    n = [0]
+    hook = PREDECESSORS[pred]
+    for first in firsts:
+        def run_one(ex):
+            toks = [SymToken(ex, i) for i in range(K)]
+            toks[0].fixed = first
+            if hook is not None:
+                mindsdb_sql.get_lexer_parser = real_glp
+                for r_ in ex.parser_cls._lrtable.lr_action.values():
+                    r_.explorer = None
+                hook()
+                for r_ in ex.parser_cls._lrtable.lr_action.values():
+                    r_.explorer = ex
+            mindsdb_sql.get_lexer_parser = real_glp
+            r = run_tail_real(dialect, L, toks)
+            obs = (tuple(type_names(toks)), r.outcome, r.ast.to_tree() if r.outcome == 'accept' else (r.message or repr(r.exc)))
+            h.update(repr(obs).encode())
+            n[0] += 1
+        ex.explore(run_one)
+    mindsdb_sql.get_lexer_parser = real_glp
+    return {'digest': h.hexdigest(), 'paths': n[0], 'solver_calls': ex.solver_calls, 'solver_s': ex.solver_s}
+
+
+def sweep_history(dialect, K, pred, jobs=None):
+    L, P = dialect_classes(dialect)
+    alpha = alphabet_of(P)
+    jobs = jobs or os.cpu_count()
+    shards = [alpha[i::jobs * 2] for i in range(jobs * 2)]
+    shards = [s for s in shards if s]
+    with mp.get_context('fork').Pool(min(jobs, len(shards))) as pool:
+        res = pool.map(worker_history, [(dialect, K, s, pred) for s in shards])
+    return res
+
+
 def worker_space1(args):
     dialect, K, firsts, use_z3, want_c19 = args
     sys.setrecursionlimit(10000)
